@@ -1,0 +1,64 @@
+//go:build verif
+
+package fsnotify
+
+import (
+	"sync/atomic"
+
+	"github.com/fsnotify/fsnotify/internal/ztest"
+)
+
+// Verification hooks; only compiled with -tags verif. See /verif/DESIGN.md §3.
+
+const (
+	VerifUnportableOpen       = xUnportableOpen
+	VerifUnportableRead       = xUnportableRead
+	VerifUnportableCloseWrite = xUnportableCloseWrite
+	VerifUnportableCloseRead  = xUnportableCloseRead
+)
+
+type VerifAddOpt = addOpt
+
+func VerifWithOps(op Op) VerifAddOpt      { return withOps(op) }
+func VerifWithNoFollow() VerifAddOpt      { return withNoFollow() }
+func VerifSetRecurse(on bool)             { enableRecurse = on }
+func VerifRenamedFrom(e Event) string     { return e.renamedFrom }
+func VerifSupports(w *Watcher, o Op) bool { return w.xSupports(o) }
+
+func VerifEvent(name string, op Op, renamedFrom string) Event {
+	return Event{Name: name, Op: op, renamedFrom: renamedFrom}
+}
+
+func VerifDiff(have, want string) string      { return ztest.Diff(have, want) }
+func VerifDiffMatch(have, want string) string { return ztest.DiffMatch(have, want) }
+
+// VerifHooks are the callbacks the monitors install. Point is called at named
+// yield points (n carries a point-specific number, e.g. bytes read); Send is
+// called at the start of every channel send with locked=true when shared.mu
+// could not be acquired at that moment.
+type VerifHooks struct {
+	Point func(name string, n int)
+	Send  func(locked bool)
+}
+
+var verifHooks atomic.Value // *VerifHooks
+
+func VerifSetHooks(h *VerifHooks) { verifHooks.Store(h) }
+
+func verifPoint(name string, n int) {
+	if h, _ := verifHooks.Load().(*VerifHooks); h != nil && h.Point != nil {
+		h.Point(name, n)
+	}
+}
+
+func verifSend(w *shared) {
+	h, _ := verifHooks.Load().(*VerifHooks)
+	if h == nil || h.Send == nil {
+		return
+	}
+	locked := !w.mu.TryLock()
+	if !locked {
+		w.mu.Unlock()
+	}
+	h.Send(locked)
+}
